@@ -94,6 +94,14 @@ def build(case):
     off, tail = padding(case)
     shape = tuple(o + s + t for o, s, t in zip(off, case["shape"], tail))
     wcs = W.make_wcs(rng, shape, case["fam"], True)
+    if case["wseed"] % 3 == 0 and case["fam"] != "gwcs":
+        # the WCS declares the pixel bounds of its array: the rebinned WCS must declare those of the rebinned array
+        bounds = [(-0.5, n - 0.5) for n in shape[::-1]]
+        ll0 = W.low_level(wcs)
+        if isinstance(ll0, W.ProbeWCS):
+            ll0._bounds = bounds
+        else:
+            ll0.pixel_bounds = bounds
     cube = NDCube(C.payload(shape, 0), wcs=wcs)
     tabs = []
     for k, ec in enumerate(case["ecs"]):
@@ -189,6 +197,14 @@ def run(case):
                 kind = "centre" if all(float(x).is_integer() for x in p) else "edge"
                 fails.append(f"{kind} {p} of the rebinned cube reports {got}; the source at j*f+(f-1)/2 = {centre} has {want}")
                 break
+        # declared pixel bounds: every f-th original edge, i.e. the same footprint
+        sb = sll.pixel_bounds
+        if sb is not None and not fails:
+            ob = oll.pixel_bounds
+            want_b = [((lo + 0.5) / f - 0.5, (hi + 0.5) / f - 0.5) for (lo, hi), f in zip(sb, bins[::-1])]
+            if ob is None or not np.allclose(np.asarray(ob, dtype=float), np.asarray(want_b, dtype=float), atol=1e-12):
+                fails.append(f"pixel_bounds of the rebinned wcs {ob}; the source's {list(sb)} cover {want_b} on the rebinned grid")
+            tags.append("pixel-bounds")
         # corners through the public API: every f-th original edge
         if not fails:
             cs = src.axis_world_coords_values(pixel_corners=True)
